@@ -25,7 +25,23 @@ pub struct Case {
     pub schedule: Schedule,
     /// inject this byte at this (relative) offset
     pub fault: Option<(u16, u8)>,
+    /// part `declared-encodings`: the response declares a supported Content-Encoding
+    #[serde(default, skip_serializing_if = "Option::is_none")]
+    pub encoding: Option<Enc>,
 }
+
+#[derive(Serialize, Deserialize, Clone, Debug, PartialEq)]
+pub struct Enc {
+    /// "gzip" | "deflate" | "br"
+    pub codec: String,
+    /// header value as sent ("gzip", "GZIP", ...)
+    pub spelled: String,
+    /// true: the body is sent as it is although the header declares the encoding; false: it is really compressed
+    pub mislabelled: bool,
+    pub level: u8,
+}
+
+pub const D26: &str = "d26-error-inside-a-chain-with-codec-stages";
 
 pub fn sentinel(k: usize) -> String {
     format!("~~S{k}~~")
@@ -132,6 +148,101 @@ pub fn effective_body(case: &Case) -> Vec<u8> {
 }
 
 pub fn check(case: &Case) -> Outcome {
+    match &case.encoding {
+        None => check_plain(case),
+        Some(e) => check_encoded(case, e),
+    }
+}
+
+/// Is the failure of an encoded case of the shape of known finding D26? (an error - invalid stream, or text that is not
+/// UTF-8 reaching an HTML stage - inside a chain that has decode / encode stages)
+pub fn is_d26(case: &Case, msg: &str) -> bool {
+    case.encoding.is_some() && msg.starts_with("error inside a chain with codec stages:")
+}
+
+fn applicable_of(case: &Case, html_ok: bool) -> Vec<(usize, &FilterK)> {
+    case.filters
+        .iter()
+        .enumerate()
+        .filter(|(_, f)| if is_text(&f.action) { true } else { html_ok && !f.path.is_empty() && matches!(f.action.as_str(), "append_child" | "prepend_child" | "replace") })
+        .collect()
+}
+
+/// The response declares gzip / deflate / br. The statement's relations are required of the *decompressed* output when the
+/// output is a complete valid stream, and `out == in` otherwise ("passes through byte-for-byte").
+pub fn check_encoded(case: &Case, e: &Enc) -> Outcome {
+    use crate::props::c14::{compress, decompress_complete};
+    let mut out = Outcome::new();
+    let body = effective_body(case);
+    if body.contains(&b'~') {
+        out.class("skipped:sentinel-in-body");
+        return out;
+    }
+    let filters: Vec<Value> = case.filters.iter().enumerate().map(|(k, f)| filter_json(k, f)).collect();
+    let h = |n: &str, v: &str| Header { name: n.into(), value: v.into() };
+    let mut headers = match case.headers % 3 {
+        0 => vec![],
+        1 => vec![h("Content-Type", "text/html; charset=utf-8")],
+        _ => vec![h("Content-Type", "application/json")],
+    };
+    headers.push(h("Content-Encoding", &e.spelled));
+    let html_ok = case.headers % 3 != 2;
+    let payload = if e.mislabelled { body.clone() } else { compress(&body, &e.codec, e.level, 22) };
+    let r = run_schedule(&filters, &headers, &payload, &case.schedule);
+    let applicable = applicable_of(case, html_ok);
+    let describe = || format!("filters {:?} headers {:?} schedule {:?} on {} of body {:?}", filters.iter().map(|f| f.to_string()).collect::<Vec<_>>(), headers.iter().map(|h| format!("{}: {}", h.name, h.value)).collect::<Vec<_>>(), case.schedule, if e.mislabelled { "the plain bytes" } else { "the compressed stream" }, String::from_utf8_lossy(&body));
+    out.class(match e.codec.as_str() {
+        "gzip" => "declared:gzip",
+        "deflate" => "declared:deflate",
+        _ => "declared:br",
+    });
+    if applicable.is_empty() {
+        out.class("pass-through:nothing-applicable");
+        if r.out != payload {
+            out.fail(format!("{}: no filter can be built, yet the output ({} bytes) differs from the input ({} bytes)", describe(), r.out.len(), payload.len()));
+        }
+        out.nontrivial = !case.filters.is_empty();
+        return out;
+    }
+    // what the payload decompresses to, judged by an independent decoder (a mislabelled body is almost never a stream)
+    let reference = match decompress_complete(&payload, &e.codec) {
+        Ok(d) => Some(d),
+        Err(_) => None,
+    };
+    let error_expected = reference.is_none() || (std::str::from_utf8(reference.as_ref().unwrap()).is_err() && applicable.iter().any(|(_, f)| !is_text(&f.action)));
+    if r.out == payload {
+        out.class("out==in");
+        out.nontrivial = error_expected;
+        return out;
+    }
+    let fail_prefix = if error_expected { "error inside a chain with codec stages: " } else { "" };
+    let Some(reference) = reference else {
+        out.fail(format!("{fail_prefix}{}: the input is not a valid {} stream, the chain cannot work on it, yet the output ({} bytes) differs from the input ({} bytes)", describe(), e.codec, r.out.len(), payload.len()));
+        return out;
+    };
+    match decompress_complete(&r.out, &e.codec) {
+        Err(err) => {
+            out.fail(format!("{fail_prefix}{}: the output ({} bytes) is neither the input ({} bytes) nor one complete valid {} stream: {err}", describe(), r.out.len(), payload.len(), e.codec));
+            out
+        }
+        Ok(dec) => {
+            // the relations of the plain case, between the decompressed output and the decompressed input
+            let mut o = relate(case, &reference, &dec, r.in_error, &applicable, &describe);
+            if let Some(m) = o.failure.take() {
+                o.fail(format!("{fail_prefix}after decompression: {m}"));
+            }
+            for c in out.classes.iter() {
+                o.class(c);
+            }
+            if error_expected {
+                o.class("error-expected");
+            }
+            o
+        }
+    }
+}
+
+pub fn check_plain(case: &Case) -> Outcome {
     let mut out = Outcome::new();
     let body = effective_body(case);
     // sentinels must not occur in the body, and no sentinel may be completed by body bytes next to an inserted value
@@ -174,10 +285,26 @@ pub fn check(case: &Case) -> Outcome {
         return out;
     }
 
+    let mut o = relate(case, &body, &got, r.in_error, &applicable, &describe);
+    for c in out.classes.iter() {
+        o.class(c);
+    }
+    o
+}
+
+/// The statement's relations between a reference body and an output, for the applicable (non-empty) filter list.
+fn relate(case: &Case, body: &[u8], got: &[u8], in_error: bool, applicable: &[(usize, &FilterK)], describe: &dyn Fn() -> String) -> Outcome {
+    let mut out = Outcome::new();
+    let body = body.to_vec();
+    let got = got.to_vec();
+    struct R {
+        in_error: bool,
+    }
+    let r = R { in_error };
     // strip insert sentinels; a text replace makes everything before it irrelevant
     let last_text_replace = applicable.iter().rposition(|(_, f)| f.action == "replace_text");
     let mut stripped = got.clone();
-    for (k, f) in &applicable {
+    for (k, f) in applicable {
         if is_insert(&f.action) {
             stripped = strip(&stripped, sentinel(*k).as_bytes());
         }
@@ -221,7 +348,7 @@ pub fn check(case: &Case) -> Outcome {
     }
     // runaway duplication guard: an inserted value appears at most once per '<' of the input (+1 for text filters)
     let lt = body.iter().filter(|b| **b == b'<').count() + 1;
-    for (k, _) in &applicable {
+    for (k, _) in applicable {
         let s = sentinel(*k);
         let cnt = got.windows(s.len()).filter(|w| *w == s.as_bytes()).count();
         if cnt > lt {
@@ -290,7 +417,7 @@ pub fn strategy() -> BoxedStrategy<Case> {
     let body = prop_oneof![2 => bytes_body, 4 => soup_body, 3 => dom_body];
     let fault = prop::option::weighted(0.35, (any::<u16>(), pick(vec![0xFFu8, 0xC3, 0x80, 0xE6, 0xF0, 0xC0])));
     let generic = (body, prop::collection::vec(filterk_strategy(), 0..4), pickw(vec![(4u32, 0u8), (4, 1), (1, 2), (1, 3), (1, 4), (1, 5)]), schedule_strategy(), fault.clone())
-        .prop_map(|(body, filters, headers, schedule, fault)| Case { body, filters, headers, schedule, fault });
+        .prop_map(|(body, filters, headers, schedule, fault)| Case { body, filters, headers, schedule, fault, encoding: None });
     // documents whose filters are known to find their target (paths derived from the document), then broken on purpose
     let derived = (c15::strategy(), prop::option::weighted(0.5, (0u8..4, any::<u16>(), any::<u16>())), prop::collection::vec(filterk_strategy(), 0..2), schedule_strategy(), fault, pickw(vec![(4u32, 0u8), (4, 1), (1, 3)]))
         .prop_map(|(c, m, extra, schedule, fault, headers)| {
@@ -300,9 +427,32 @@ pub fn strategy() -> BoxedStrategy<Case> {
             }
             let mut filters: Vec<FilterK> = c.filters.iter().map(|f| FilterK { action: f.action.clone(), path: f.path.clone(), selector: f.selector.clone() }).collect();
             filters.extend(extra);
-            Case { body: c16::Case::from_bytes(b.into_bytes()), filters, headers, schedule, fault }
+            Case { body: c16::Case::from_bytes(b.into_bytes()), filters, headers, schedule, fault, encoding: None }
         });
     prop_oneof![3 => generic, 2 => derived].boxed()
+}
+
+/// The same bodies, filters, schedules and faults behind a declared gzip / deflate / br encoding: really compressed (the fault
+/// makes the decoded text invalid UTF-8) or sent as they are (the decode stage fails).
+pub fn encoded_strategy() -> BoxedStrategy<Case> {
+    let enc = (pickw(vec![(4u32, ("gzip", "gzip")), (1, ("gzip", "GZIP")), (3, ("deflate", "deflate")), (1, ("deflate", "Deflate")), (3, ("br", "br"))]), prop::bool::weighted(0.3), 0u8..10)
+        .prop_map(|((codec, spelled), mislabelled, level)| Enc { codec: codec.to_string(), spelled: spelled.to_string(), mislabelled, level });
+    // schedules over the compressed stream: cuts early (codec header), strides, byte-wise
+    let schedule = prop_oneof![
+        3 => Just(Schedule::Whole),
+        2 => Just(Schedule::Bytewise),
+        3 => (0usize..40).prop_map(Schedule::Two),
+        2 => prop::collection::vec(0usize..300, 1..5).prop_map(Schedule::Cuts),
+        1 => pick(vec![1usize, 3, 7, 10, 4096]).prop_map(Schedule::Stride),
+    ];
+    (strategy(), enc, schedule)
+        .prop_map(|(mut c, e, schedule)| {
+            c.headers %= 3;
+            c.schedule = schedule;
+            c.encoding = Some(e);
+            c
+        })
+        .boxed()
 }
 
 pub fn run(ctx: &Ctx) -> Report {
@@ -313,8 +463,13 @@ pub fn run(ctx: &Ctx) -> Report {
          oracle by filter class: nothing applicable / unsupported encoding => out == in; insert-only => out with all sentinels removed == in; HTML replace => out split at the sentinels is a sequence of consecutive segments of in whose gaps each start with '<' and end with '>' (existence by DP); \
          text replace => out == content; mixed lists => strip insert sentinels, then the replace relation; the same relations when the chain errors at any chunk; non-trivial = a sentinel is present in the output, or the chain entered its error state (hook) on a multi-chunk schedule; distinct by case hash",
     );
-    rep.assume("compressed bodies are C14's subject: only unsupported encodings are generated here; a value is allowed at most once per '<' of the input (runaway guard, weaker than 'once per target')");
+    rep.assume("part declared-encodings: the response declares gzip / deflate / br and the body is either really compressed or sent as it is; the oracle is out == in, or the output is one complete valid stream whose decompression stands in the statement's relations to the decompressed input; while known finding D26 is listed, failures of cases in which an error is bound to strike inside the chain (invalid stream, or decoded text that is not UTF-8 reaching an HTML stage) are counted as that finding, all others are violations");
+    rep.assume("part bytes: only unsupported encodings are generated; a value is allowed at most once per '<' of the input (runaway guard, weaker than 'once per target')");
     rep.add(run_part(ctx, "bytes", ctx.cases(1_500_000, 40_000_000), strategy, check, &[]));
+    if rep.has_violation() {
+        return rep;
+    }
+    rep.add(run_part(ctx, "declared-encodings", ctx.cases(150_000, 4_000_000), encoded_strategy, check, &[KnownSig { name: D26, pred: is_d26 }]));
     rep
 }
 
